@@ -9,6 +9,7 @@ is what it claims to be and that the executable matcher the driver runs is that 
 import RegexVerif.Lemmas.Spec
 import RegexVerif.Lemmas.Backtrack
 import RegexVerif.Lemmas.Writer
+import RegexVerif.Lemmas.CompileTop
 
 namespace RegexVerif.Props.C01
 open RegexVerif RegexVerif.Spec
@@ -357,5 +358,174 @@ example : (i1 opGoto 18) ∈ mainCode wrDemoInfo wrDemo ∧ (i1 opGoto 18).targe
   decide
 
 end writer
+
+/-! ## compiler correctness — the interpreter model running the writer model's program computes the specification
+
+(C01 "stage 3", on a fragment.)  `Writer.emit ti t` is the program `syntax.Write` produces for the reduced tree `t`
+(leg Wr: word-for-word equality), `VM.step` one iteration of `executeDefault` (leg W: step-by-step equality of
+traces), `Compile.toPat` the translation of a reduced tree into the specification's pattern AST (the Lean port of
+`gen.FromGoTree`; leg Cc compares the two on every explored tree).  The theorems say: for every tree of the fragment,
+every text shorter than 2³¹ runes, every start position and `\G` origin, and all oracles that describe the same
+input on both sides (`Compile.EnvRel`), the interpreter started as `executeDefault` starts it halts at `Stop` — no
+fault of any kind, no fuel exhaustion — and its final state carries the verdict, the end position and every capture
+of every group of `Spec.attempt`.
+
+Full statement aimed at (`compile_correct`, NOT proved): the same for every tree `syntax.Parse` can produce, i.e.
+`InFrag 4` extended by balancing groups, `UpdateBumpalong` and ECMAScript boundaries, both directions.  Proved:
+the tiers 1–3 below (left to right; no `Loop`/`Lazyloop`, `Ref`, conditionals, lookbehind). -/
+section compiler
+open RegexVerif.Compile RegexVerif.Writer RegexVerif.Generated.Opcodes
+
+/-- **`compile_correct_T3`** — fragment of tier 3: Empty, Nothing, the anchors `^ $ \A \z \Z \G \b \B`, One, Notone, Set,
+    Multi, Concatenate, Alternate, Capture, Group (tier 1); the single-character loops `Oneloop/Notoneloop/Setloop`,
+    their lazy and atomic forms with any bounds (tier 2); Atomic, positive and negative lookahead (tier 3); all
+    left-to-right, case-insensitivity only as the parser compiles it (into sets).
+
+    For such a tree `t` with `treeWf` (what the parser guarantees; leg Wr evaluates it), `pat` its translation, an
+    input of fewer than 2³¹ runes and related oracles: `init` succeeds, and there is a number of iterations `n`
+    such that with any fuel `≥ n` the run of the emitted program ends in `Final.done s` — the interpreter reached
+    `Stop`; it did not fault and did not run out of fuel — where (`Compile.Agrees`)
+     * `matched s` (Go: `runmatch.matchcount[0] > 0`) iff `Spec.attempt` succeeds at `i`;
+     * on success `s.textpos` is the end of the match, and
+     * the capture arrays denote the specification's chronological capture log (`CapRep`): for every slot `c` the
+       count is the number of captures of the groups mapped to `c` and the live prefix of `matches[c]` is exactly
+       their `(index, length)` pairs in order — so every capture of every group, group 0 included, agrees. -/
+theorem compile_correct_T3 (ti : TreeInfo) (t : GoNode) (TPx : TP) (env : VM.Env) (se : Spec.Env) (pat : Pat) (i : Nat)
+    (hfrag : InFrag 3 TPx ti t = true) (hwf : treeWf ti t = true) (hpat : toPatRoot TPx false t = some pat)
+    (hrel : EnvRel TPx (codeFromTree (mainCfg ti) t).2.sets env se) (hi : i ≤ se.n) (hlen : se.n ≤ 2147483647) :
+    ∃ s0 s n, VM.init (emit ti t) (i : Int) = .ok s0 ∧
+      (∀ fuel, n ≤ fuel → (VM.run (emit ti t) env fuel s0).1 = .done s) ∧ Agrees ti se pat i s :=
+  compile_correct_upto ti t TPx env se pat i hfrag hwf hpat hrel hi hlen
+
+/-- tier 2 (no Atomic, no lookaround): a special case of tier 3 -/
+theorem compile_correct_T2 (ti : TreeInfo) (t : GoNode) (TPx : TP) (env : VM.Env) (se : Spec.Env) (pat : Pat) (i : Nat)
+    (hfrag : InFrag 2 TPx ti t = true) (hwf : treeWf ti t = true) (hpat : toPatRoot TPx false t = some pat)
+    (hrel : EnvRel TPx (codeFromTree (mainCfg ti) t).2.sets env se) (hi : i ≤ se.n) (hlen : se.n ≤ 2147483647) :
+    ∃ s0 s n, VM.init (emit ti t) (i : Int) = .ok s0 ∧
+      (∀ fuel, n ≤ fuel → (VM.run (emit ti t) env fuel s0).1 = .done s) ∧ Agrees ti se pat i s :=
+  compile_correct_T3 ti t TPx env se pat i (inFrag_mono (by decide) hfrag) hwf hpat hrel hi hlen
+
+/-- tier 1 (no loops at all) -/
+theorem compile_correct_T1 (ti : TreeInfo) (t : GoNode) (TPx : TP) (env : VM.Env) (se : Spec.Env) (pat : Pat) (i : Nat)
+    (hfrag : InFrag 1 TPx ti t = true) (hwf : treeWf ti t = true) (hpat : toPatRoot TPx false t = some pat)
+    (hrel : EnvRel TPx (codeFromTree (mainCfg ti) t).2.sets env se) (hi : i ≤ se.n) (hlen : se.n ≤ 2147483647) :
+    ∃ s0 s n, VM.init (emit ti t) (i : Int) = .ok s0 ∧
+      (∀ fuel, n ≤ fuel → (VM.run (emit ti t) env fuel s0).1 = .done s) ∧ Agrees ti se pat i s :=
+  compile_correct_T3 ti t TPx env se pat i (inFrag_mono (by decide) hfrag) hwf hpat hrel hi hlen
+
+/-- **the result does not depend on the fuel**: two runs of the same attempt that both end at `Stop` end in the same
+    state (`step` is a function), so `compile_correct_T3` fixes the outcome of every sufficiently long run -/
+theorem run_done_unique (p : Code.Prog) (env : VM.Env) (s0 s s' : VM.VMState) (f f' : Nat)
+    (h : (VM.run p env f s0).1 = .done s) (h' : (VM.run p env f' s0).1 = .done s') : s = s' := by
+  induction f generalizing f' s0 with
+  | zero => simp [VM.run] at h
+  | succ f ih =>
+    cases f' with
+    | zero => simp [VM.run] at h'
+    | succ f' =>
+      unfold VM.run at h h'
+      cases hst : VM.step p env s0 with
+      | fault e => rw [hst] at h; simp at h
+      | stop t => rw [hst] at h h'; simp at h h'; rw [← h, ← h']
+      | next t chk => rw [hst] at h h'; simp at h h'; exact ih t f' h h'
+
+/-- **the scan**: under the hypotheses of `compile_correct_T3` for every start position, "the first position in scan
+    order at which the compiled program matches" is `Spec.find`: the specification's find succeeds exactly when some
+    attempt of the program in scan order ends matched, and the position it reports is the first such one.  (The
+    engine's `scan` is this naive scan up to the accelerations of C03.) -/
+theorem compile_correct_find_T3 (ti : TreeInfo) (t : GoNode) (TPx : TP) (env : VM.Env) (se : Spec.Env) (pat : Pat)
+    (start : Nat) (hfrag : InFrag 3 TPx ti t = true) (hwf : treeWf ti t = true)
+    (hpat : toPatRoot TPx false t = some pat) (hrel : EnvRel TPx (codeFromTree (mainCfg ti) t).2.sets env se)
+    (hlen : se.n ≤ 2147483647) (st : St) :
+    Spec.find se pat false start = some st ↔
+      ∃ (before : List Nat) (i : Nat) (after : List Nat), scanOrder false start se.n = before ++ i :: after ∧
+        (∃ s0 s n, VM.init (emit ti t) (i : Int) = .ok s0 ∧
+          (∀ fuel, n ≤ fuel → (VM.run (emit ti t) env fuel s0).1 = .done s) ∧ VM.matched s = true ∧
+          s.textpos = (st.pos : Int) ∧ CapRep (slotOf ti) (capsize ti) s.cap st.caps ∧
+          Spec.attempt se pat false i = some st) ∧
+        ∀ j ∈ before, ∃ s0 s n, VM.init (emit ti t) (j : Int) = .ok s0 ∧
+          (∀ fuel, n ≤ fuel → (VM.run (emit ti t) env fuel s0).1 = .done s) ∧ VM.matched s = false := by
+  rw [find_eq_some_iff]
+  have hpos : ∀ j ∈ scanOrder false start se.n, j ≤ se.n := fun j hj => ((mem_scanOrder_ltr start se.n j).mp hj).2
+  constructor
+  · rintro ⟨before, i, after, hso, hat, hbef⟩
+    refine ⟨before, i, after, hso, ?_, ?_⟩
+    · obtain ⟨s0, s, n, h1, h2, hag⟩ := compile_correct_T3 ti t TPx env se pat i hfrag hwf hpat hrel
+        (hpos i (by rw [hso]; simp)) hlen
+      exact ⟨s0, s, n, h1, h2, by rw [hag.verdict, hat]; rfl, hag.pos st hat, hag.caps st hat, hat⟩
+    · intro j hj
+      obtain ⟨s0, s, n, h1, h2, hag⟩ := compile_correct_T3 ti t TPx env se pat j hfrag hwf hpat hrel
+        (hpos j (by rw [hso]; simp [hj])) hlen
+      exact ⟨s0, s, n, h1, h2, by rw [hag.verdict, hbef j hj]; rfl⟩
+  · rintro ⟨before, i, after, hso, ⟨_, _, _, _, _, _, _, _, hat⟩, hbef⟩
+    refine ⟨before, i, after, hso, hat, ?_⟩
+    intro j hj
+    obtain ⟨s0, s, n, h1, h2, hm⟩ := hbef j hj
+    obtain ⟨s0', s', n', h1', h2', hag⟩ := compile_correct_T3 ti t TPx env se pat j hfrag hwf hpat hrel
+      (hpos j (by rw [hso]; simp [hj])) hlen
+    have hs0 : s0 = s0' := by rw [h1] at h1'; exact Except.ok.inj h1'
+    subst hs0
+    have hss : s = s' := run_done_unique _ env s0 s s' _ _ (h2 (max n n') (by omega)) (h2' (max n n') (by omega))
+    subst hss
+    rw [hag.verdict] at hm
+    cases hatt : Spec.attempt se pat false j with
+    | none => rfl
+    | some x => rw [hatt] at hm; simp at hm
+
+/-! ### non-vacuity (compiler correctness): four concrete trees inside the fragments, the hypotheses of the theorems
+met, and both sides of the conclusion evaluated -/
+
+/-- `(a|ab)(c|bcd)` on "abcd" (tier 1): the first alternative `a` wins, then `bcd`; captures per group -/
+example : InFrag 1 ccTP (ccInfo 3) ccT1 = true ∧ treeWf (ccInfo 3) ccT1 = true ∧
+    (toPatRoot ccTP false ccT1).isSome = true := by decide
+example : ccRun (ccInfo 3) ccT1 (ccEnv [] (ccSe [97, 98, 99, 100])) 0 60 = some (true, 4, [[0, 4], [0, 1], [1, 3]]) := by
+  decide
+example : (toPatRoot ccTP false ccT1).map (fun p => Spec.attempt (ccSe [97, 98, 99, 100]) p false 0) =
+    some (some { pos := 4, caps := [(1, 0, 1), (2, 1, 3), (0, 0, 4)] }) := by decide
+/-- the hypotheses of `compile_correct_T1` hold for this tree and input, so its conclusion does -/
+example : ∃ s0 s n, VM.init (emit (ccInfo 3) ccT1) (0 : Nat) = .ok s0 ∧
+    (∀ fuel, n ≤ fuel → (VM.run (emit (ccInfo 3) ccT1) (ccEnv [] (ccSe [97, 98, 99, 100])) fuel s0).1 = .done s) ∧
+    VM.matched s = true :=
+  match h : toPatRoot ccTP false ccT1 with
+  | some pat =>
+    let ⟨s0, s, n, h1, h2, hag⟩ := compile_correct_T1 (ccInfo 3) ccT1 ccTP _ (ccSe [97, 98, 99, 100]) pat 0 (by decide) (by decide) h
+      (ccRel _ _) (by decide) (by decide)
+    ⟨s0, s, n, h1, h2, by
+      rw [hag.verdict]
+      have : (toPatRoot ccTP false ccT1).map (fun p => (Spec.attempt (ccSe [97, 98, 99, 100]) p false 0).isSome) = some true := by
+        decide
+      rw [h] at this
+      simpa using this⟩
+  | none => absurd h (by decide)
+
+/-- `a*ab` on "aaab" (tier 2, not tier 1): the greedy loop gives one `a` back -/
+example : InFrag 1 ccTP (ccInfo 1) ccT2 = false ∧ InFrag 2 ccTP (ccInfo 1) ccT2 = true ∧ treeWf (ccInfo 1) ccT2 = true := by
+  decide
+example : ccRun (ccInfo 1) ccT2 (ccEnv [] (ccSe [97, 97, 97, 98])) 0 60 = some (true, 4, [[0, 4]]) := by decide
+example : (toPatRoot ccTP false ccT2).map (fun p => Spec.attempt (ccSe [97, 97, 97, 98]) p false 0) =
+    some (some { pos := 4, caps := [(0, 0, 4)] }) := by decide
+
+/-- `(?>a+)b` on "aab" (tier 3, not tier 2) -/
+example : InFrag 2 ccTP (ccInfo 1) ccT3 = false ∧ InFrag 3 ccTP (ccInfo 1) ccT3 = true ∧ treeWf (ccInfo 1) ccT3 = true := by
+  decide
+example : ccRun (ccInfo 1) ccT3 (ccEnv [] (ccSe [97, 97, 98])) 0 60 = some (true, 3, [[0, 3]]) := by decide
+example : (toPatRoot ccTP false ccT3).map (fun p => Spec.attempt (ccSe [97, 97, 98]) p false 0) =
+    some (some { pos := 3, caps := [(0, 0, 3)] }) := by decide
+
+/-- `(?=a)[a-z]` on "ab" (tier 3, one set whose payload `readSet` reads as `[a-z]`): matches at 0, fails at 1 -/
+example : InFrag 3 ccTP (ccInfo 1) ccT4 = true ∧ treeWf (ccInfo 1) ccT4 = true ∧
+    (codeFromTree (mainCfg (ccInfo 1)) ccT4).2.sets = [ccAZ] := by decide
+example : ccRun (ccInfo 1) ccT4 (ccEnv [ccAZ] (ccSe [97, 98])) 0 60 = some (true, 1, [[0, 1]]) ∧
+    ccRun (ccInfo 1) ccT4 (ccEnv [ccAZ] (ccSe [97, 98])) 1 60 = some (false, 1, [[]]) := by decide
+example : (toPatRoot ccTP false ccT4).map (fun p => (Spec.attempt (ccSe [97, 98]) p false 0, Spec.attempt (ccSe [97, 98]) p false 1)) =
+    some (some { pos := 1, caps := [(0, 0, 1)] }, none) := by decide
+/-- `EnvRel` is satisfiable with a non-trivial set table -/
+example : EnvRel ccTP (codeFromTree (mainCfg (ccInfo 1)) ccT4).2.sets
+    (ccEnv (codeFromTree (mainCfg (ccInfo 1)) ccT4).2.sets (ccSe [97, 98])) (ccSe [97, 98]) := ccRel _ _
+/-- a tree outside every tier: a backreference is tier 4, `UpdateBumpalong` is in no tier -/
+example : InFrag 3 ccTP (ccInfo 2) (.capture 0 (-1) (.concat [.capture 1 (-1) (.char opOne false false 97), .ref false false 1])) = false ∧
+    InFrag 4 ccTP (ccInfo 1) (.capture 0 (-1) (.concat [.bare opUpdateBumpalong, .char opOne false false 97])) = false := by decide
+
+end compiler
 
 end RegexVerif.Props.C01
